@@ -170,14 +170,15 @@ Qed.
 Theorem prepare_eval_ok_frame e s u s' :
   prepare_eval e s = ROk u s' ->
   stack s' = stack s /\ scap s' = scap s /\ sp s' = sp s /\ bp s' = bp s /\ ep s' = ep s /\
-  acc s' = acc s /\ out_log s' = out_log s /\ sext (st s) (st s').
+  acc s' = acc s /\ out_log s' = out_log s /\ sext (st s) (st s') /\
+  (exists k, g_slots s' = g_slots s ++ repeat VUndef k) /\ (exists nb, g_bind s' = nb ++ g_bind s).
 Proof.
   unfold prepare_eval, bindM. pose proof (mono_compile_runnable sframe e s) as H1.
   destruct (compile_runnable e s) as [entry s1|c1 m1 s1| |]; try discriminate.
   pose proof (mono_put_lambda sframe entry s1) as H2. unfold put_lambda in *.
   cbv beta iota delta [new_lam] in *. destruct (heap_put (hp s1) _) as [p h]. unfold rpost in *.
-  pose proof (sframe_trans _ _ _ H1 H2) as [A1 A2 A3 A4 A5 A6 A7 A8 A9].
-  destruct p; cbn; try discriminate. intros [= _ <-]. cbn in *. auto 10.
+  pose proof (sframe_trans _ _ _ H1 H2) as [A1 A2 A3 A4 A5 A6 A7 A8 A9 A10 A11].
+  destruct p; cbn; try discriminate. intros [= _ <-]. cbn in *. auto 12.
 Qed.
 Theorem prepare_eval_kmono e : mono kmono (prepare_eval e).
 Proof. unfold prepare_eval. pose proof (mono_compile_runnable kmono). mgo. Qed.
